@@ -13,9 +13,9 @@ type c10Case struct {
 	Ctx   int   `json:"ctx"`
 }
 
-var c10Lexemes = []string{"a", "<", ">", "&", `"`, "'", ";", "#", "&amp;", "&lt;", "&#34;", "&#39;", "&quot;", "é", "\n", `\`}
+var c10Lexemes = []string{"a", "<", ">", "&", `"`, "'", ";", "#", "&amp;", "&lt;", "&#34;", "&#39;", "&quot;", "é", "\n", `\`, " ", ","}
 
-var c10Contexts = []string{"print", "concat", "var", "array", "ternary", "raw", "raw-concat", "raw-var", "concat-var", "insert-arg", "component-arg", "component-arg-raw", "insert-block", "slot-body", "raw-then-print", "raw-twice", "print-raw-print"}
+var c10Contexts = []string{"print", "concat", "var", "array", "ternary", "raw", "raw-concat", "raw-var", "concat-var", "insert-arg", "component-arg", "component-arg-raw", "insert-block", "slot-body", "raw-then-print", "raw-twice", "print-raw-print", "array-last", "array-only", "array-nested-last"}
 
 // c10Literal returns the literal's text and its source form; ok=false for contents that cannot
 // be written (a backslash before a quote or at the end).
@@ -87,6 +87,14 @@ func c10Check(cs c10Case) (ok bool, sig, expected, observed string) {
 		raw = true
 	case "print-raw-print":
 		src = "{{ a = [" + lit + "] }}{{ w = a[0].raw() }}{{ a[0] }}"
+	case "array-last":
+		src = `{{ ["x", ` + lit + `] }}`
+		want = "x, " + text
+	case "array-only":
+		src = "{{ [" + lit + "] }}"
+	case "array-nested-last":
+		src = `{{ [[` + lit + `], "z"] }}`
+		want = text + ", z"
 	case "concat-var":
 		src = "{{ v = " + lit + ` }}{{ "<" + v + v }}`
 		want = "<" + text + text
